@@ -26,6 +26,58 @@ use crate::{
     void::Void,
 };
 
+/// Typed access to JSON values that reports a malformed document as an error.
+pub(crate) trait JsonReq {
+    fn req_str(&self) -> Result<&str, StoryError>;
+    fn req_i64(&self) -> Result<i64, StoryError>;
+    fn req_u64(&self) -> Result<u64, StoryError>;
+    fn req_i32(&self) -> Result<i32, StoryError>;
+    fn req_f64(&self) -> Result<f64, StoryError>;
+    fn req_object(&self) -> Result<&Map<String, serde_json::Value>, StoryError>;
+    fn req_array(&self) -> Result<&Vec<serde_json::Value>, StoryError>;
+}
+
+fn unexpected(what: &str, found: &serde_json::Value) -> StoryError {
+    let mut shown = found.to_string();
+    if shown.len() > 60 {
+        shown = shown.chars().take(60).collect();
+    }
+    StoryError::BadJson(format!("Expected {what}, found {shown}"))
+}
+
+impl JsonReq for serde_json::Value {
+    fn req_str(&self) -> Result<&str, StoryError> {
+        self.as_str().ok_or_else(|| unexpected("a string", self))
+    }
+    fn req_i64(&self) -> Result<i64, StoryError> {
+        self.as_i64().ok_or_else(|| unexpected("an integer", self))
+    }
+    fn req_u64(&self) -> Result<u64, StoryError> {
+        self.as_u64()
+            .ok_or_else(|| unexpected("a non-negative integer", self))
+    }
+    fn req_i32(&self) -> Result<i32, StoryError> {
+        i32::try_from(self.req_i64()?).map_err(|_| unexpected("a 32-bit integer", self))
+    }
+    fn req_f64(&self) -> Result<f64, StoryError> {
+        self.as_f64().ok_or_else(|| unexpected("a number", self))
+    }
+    fn req_object(&self) -> Result<&Map<String, serde_json::Value>, StoryError> {
+        self.as_object().ok_or_else(|| unexpected("an object", self))
+    }
+    fn req_array(&self) -> Result<&Vec<serde_json::Value>, StoryError> {
+        self.as_array().ok_or_else(|| unexpected("an array", self))
+    }
+}
+
+pub(crate) fn required<'a>(
+    obj: &'a Map<String, serde_json::Value>,
+    key: &str,
+) -> Result<&'a serde_json::Value, StoryError> {
+    obj.get(key)
+        .ok_or_else(|| StoryError::BadJson(format!("Missing '{key}'")))
+}
+
 pub fn load_from_string(
     s: &str,
 ) -> Result<(i32, Rc<Container>, Rc<ListDefinitionsOrigin>), StoryError> {
@@ -42,7 +94,7 @@ pub fn load_from_string(
         ));
     }
 
-    let version: i32 = version_opt.unwrap().as_i64().unwrap().try_into().unwrap();
+    let version: i32 = json.get("inkVersion").map_or(Ok(0), |v| v.req_i32())?;
 
     if version > INK_VERSION_CURRENT {
         return Err(StoryError::BadJson(
@@ -97,10 +149,10 @@ pub fn jtoken_to_runtime_object(
         serde_json::Value::Bool(value) => Ok(Rc::new(Value::new::<bool>(value.to_owned()))),
         serde_json::Value::Number(_) => {
             if token.is_i64() {
-                let val: i32 = token.as_i64().unwrap().try_into().unwrap();
+                let val: i32 = token.req_i32()?;
                 Ok(Rc::new(Value::new::<i32>(val)))
             } else {
-                let val: f32 = token.as_f64().unwrap() as f32;
+                let val: f32 = token.req_f64()? as f32;
                 Ok(Rc::new(Value::new::<f32>(val)))
             }
         }
@@ -109,7 +161,11 @@ pub fn jtoken_to_runtime_object(
             let str = value.as_str();
 
             // String value
-            let first_char = str.chars().next().unwrap();
+            let Some(first_char) = str.chars().next() else {
+                return Err(StoryError::BadJson(
+                    "Failed to convert an empty string to runtime RTObject".to_owned(),
+                ));
+            };
             if first_char == '^' {
                 return Ok(Rc::new(Value::new::<&str>(&str[1..])));
             } else if first_char == '\n' && str.len() == 1 {
@@ -162,12 +218,12 @@ pub fn jtoken_to_runtime_object(
             let prop_value = obj.get("^var");
 
             if let Some(v) = prop_value {
-                let variable_name = v.as_str().unwrap();
+                let variable_name = v.req_str()?;
                 let mut contex_index = -1;
                 let prop_value = obj.get("ci");
 
                 if let Some(v) = prop_value {
-                    contex_index = v.as_i64().unwrap() as i32;
+                    contex_index = v.req_i32()?;
                 }
 
                 let var_ptr = Rc::new(Value::new_variable_pointer(variable_name, contex_index));
@@ -209,7 +265,7 @@ pub fn jtoken_to_runtime_object(
             }
 
             if is_divert {
-                let target = prop_value.unwrap().as_str().unwrap().to_string();
+                let target = prop_value.unwrap().req_str()?.to_string();
 
                 let mut var_divert_name: Option<String> = None;
                 let mut target_path: Option<String> = None;
@@ -229,7 +285,7 @@ pub fn jtoken_to_runtime_object(
                 if external {
                     prop_value = obj.get("exArgs");
                     if let Some(prop_value) = prop_value {
-                        external_args = prop_value.as_i64().unwrap() as usize;
+                        external_args = prop_value.req_u64()? as usize;
                     }
                 }
 
@@ -248,10 +304,10 @@ pub fn jtoken_to_runtime_object(
             let prop_value = obj.get("*");
             if let Some(cp) = prop_value {
                 let mut flags = 0;
-                let path_string_on_choice = cp.as_str().unwrap();
+                let path_string_on_choice = cp.req_str()?;
                 let prop_value = obj.get("flg");
                 if let Some(f) = prop_value {
-                    flags = f.as_u64().unwrap();
+                    flags = f.req_u64()?;
                 }
 
                 return Ok(Rc::new(ChoicePoint::new(
@@ -263,13 +319,13 @@ pub fn jtoken_to_runtime_object(
             // // Variable reference
             let prop_value = obj.get("VAR?");
             if let Some(name) = prop_value {
-                return Ok(Rc::new(VariableReference::new(name.as_str().unwrap())));
+                return Ok(Rc::new(VariableReference::new(name.req_str()?)));
             }
 
             let prop_value = obj.get("CNT?");
             if let Some(v) = prop_value {
                 return Ok(Rc::new(VariableReference::from_path_for_count(
-                    v.as_str().unwrap(),
+                    v.req_str()?,
                 )));
             }
 
@@ -293,7 +349,7 @@ pub fn jtoken_to_runtime_object(
             }
 
             if is_var_ass {
-                let var_name = prop_value.unwrap().as_str().unwrap();
+                let var_name = prop_value.unwrap().req_str()?;
                 let prop_value = obj.get("re");
                 let is_new_decl = prop_value.is_none();
 
@@ -308,32 +364,32 @@ pub fn jtoken_to_runtime_object(
             // Legacy Tag
             prop_value = obj.get("#");
             if let Some(prop_value) = prop_value {
-                return Ok(Rc::new(Tag::new(prop_value.as_str().unwrap())));
+                return Ok(Rc::new(Tag::new(prop_value.req_str()?)));
             }
 
             // List value
             prop_value = obj.get("list");
 
             if let Some(pv) = prop_value {
-                let list_content = pv.as_object().unwrap();
+                let list_content = pv.req_object()?;
                 let mut raw_list = InkList::new();
 
                 prop_value = obj.get("origins");
 
                 if let Some(o) = prop_value {
-                    let names_as_objs = o.as_array().unwrap();
+                    let names_as_objs = o.req_array()?;
 
                     let names = names_as_objs
                         .iter()
-                        .map(|e| e.as_str().unwrap().to_string())
-                        .collect();
+                        .map(|e| e.req_str().map(|s| s.to_string()))
+                        .collect::<Result<Vec<String>, StoryError>>()?;
 
                     raw_list.set_initial_origin_names(names);
                 }
 
                 for (k, v) in list_content {
                     let item = InkListItem::from_full_name(k);
-                    raw_list.items.insert(item, v.as_i64().unwrap() as i32);
+                    raw_list.items.insert(item, v.req_i32()?);
                 }
 
                 return Ok(Rc::new(Value::new::<InkList>(raw_list)));
@@ -360,7 +416,7 @@ fn jarray_to_container(
     //  - named content
     //  - a "#f" key with the countFlags
     // (if either exists at all, otherwise null)
-    let terminating_obj = jarray[jarray.len() - 1].as_object();
+    let terminating_obj = jarray.last().and_then(|last| last.as_object());
     let mut name: Option<String> = name;
     let mut flags = 0;
 
@@ -369,16 +425,17 @@ fn jarray_to_container(
     if let Some(terminating_obj) = terminating_obj {
         for (k, v) in terminating_obj {
             match k.as_str() {
-                "#f" => flags = v.as_i64().unwrap().try_into().unwrap(),
-                "#n" => name = Some(v.as_str().unwrap().to_string()),
+                "#f" => flags = v.req_i32()?,
+                "#n" => name = Some(v.req_str()?.to_string()),
                 k => {
-                    let named_content_item =
-                        jtoken_to_runtime_object(v, Some(k.to_string())).unwrap();
+                    let named_content_item = jtoken_to_runtime_object(v, Some(k.to_string()))?;
 
                     let named_sub_container = named_content_item
                         .into_any()
                         .downcast::<Container>()
-                        .unwrap();
+                        .map_err(|_| {
+                            StoryError::BadJson(format!("Named content '{k}' is not a container"))
+                        })?;
 
                     named_only_content.insert(k.to_string(), named_sub_container);
                 }
@@ -402,7 +459,7 @@ pub fn jarray_to_runtime_obj_list(
     let mut count = jarray.len();
 
     if skip_last {
-        count -= 1;
+        count = count.saturating_sub(1);
     }
 
     let mut list: Vec<Rc<dyn RTObject>> = Vec::with_capacity(jarray.len());
@@ -416,12 +473,12 @@ pub fn jarray_to_runtime_obj_list(
 }
 
 fn jobject_to_choice(obj: &Map<String, serde_json::Value>) -> Result<Rc<dyn RTObject>, StoryError> {
-    let text = obj.get("text").unwrap().as_str().unwrap();
-    let index = obj.get("index").unwrap().as_u64().unwrap() as usize;
-    let source_path = obj.get("originalChoicePath").unwrap().as_str().unwrap();
-    let original_thread_index = obj.get("originalThreadIndex").unwrap().as_i64().unwrap() as usize;
-    let path_string_on_choice = obj.get("targetPath").unwrap().as_str().unwrap();
-    let choice_tags = jarray_to_tags(obj);
+    let text = required(obj, "text")?.req_str()?;
+    let index = required(obj, "index")?.req_u64()? as usize;
+    let source_path = required(obj, "originalChoicePath")?.req_str()?;
+    let original_thread_index = required(obj, "originalThreadIndex")?.req_u64()? as usize;
+    let path_string_on_choice = required(obj, "targetPath")?.req_str()?;
+    let choice_tags = jarray_to_tags(obj)?;
 
     Ok(Rc::new(Choice::new_from_json(
         path_string_on_choice,
@@ -433,18 +490,18 @@ fn jobject_to_choice(obj: &Map<String, serde_json::Value>) -> Result<Rc<dyn RTOb
     )))
 }
 
-fn jarray_to_tags(obj: &Map<String, serde_json::Value>) -> Vec<String> {
+fn jarray_to_tags(obj: &Map<String, serde_json::Value>) -> Result<Vec<String>, StoryError> {
     let mut tags: Vec<String> = Vec::new();
 
     let prop_value = obj.get("tags");
     if let Some(pv) = prop_value {
-        let tags_array = pv.as_array().unwrap();
+        let tags_array = pv.req_array()?;
         for tag in tags_array {
-            tags.push(tag.as_str().unwrap().to_string());
+            tags.push(tag.req_str()?.to_string());
         }
     }
 
-    tags
+    Ok(tags)
 }
 
 pub fn jtoken_to_list_definitions(
@@ -452,11 +509,11 @@ pub fn jtoken_to_list_definitions(
 ) -> Result<ListDefinitionsOrigin, StoryError> {
     let mut all_defs: Vec<ListDefinition> = Vec::with_capacity(0);
 
-    for (name, list_def_json) in def.as_object().unwrap() {
+    for (name, list_def_json) in def.req_object()? {
         // Cast (string, object) to (string, int) for items
         let mut items: HashMap<String, i32> = HashMap::new();
-        for (k, v) in list_def_json.as_object().unwrap() {
-            items.insert(k.clone(), v.as_u64().unwrap() as i32);
+        for (k, v) in list_def_json.req_object()? {
+            items.insert(k.clone(), v.req_i32()?);
         }
 
         let def = ListDefinition::new(name.clone(), items);
@@ -477,7 +534,7 @@ pub(crate) fn jobject_to_hashmap_values(
             jtoken_to_runtime_object(v, None)?
                 .into_any()
                 .downcast::<Value>()
-                .unwrap(),
+                .map_err(|_| StoryError::BadJson(format!("'{k}' does not hold a value")))?,
         );
     }
 
@@ -490,7 +547,7 @@ pub(crate) fn jobject_to_int_hashmap(
     let mut dict: HashMap<String, i32> = HashMap::new();
 
     for (k, v) in jobj.iter() {
-        dict.insert(k.clone(), v.as_i64().unwrap() as i32);
+        dict.insert(k.clone(), v.req_i32()?);
     }
 
     Ok(dict)
